@@ -65,6 +65,21 @@ Fixpoint take_i16 (n : nat) (rest : list Z) : option (list Z * list Z) :=
 
 Definition last_or (l : list Q) (d : Q) : Q := last l d.
 
+(** [length l < n] without walking the whole list (the buffer can be long,
+    [n] is at most 58) *)
+Fixpoint shorter (l : list Z) (n : nat) {struct n} : bool :=
+  match n with
+  | O => false
+  | S n' => match l with [] => true | _ :: r => shorter r n' end
+  end.
+
+Lemma shorter_length : forall n l, shorter l n = (length l <? n)%nat.
+Proof.
+  induction n as [|n IH]; intros l.
+  - unfold Nat.ltb. reflexivity.
+  - destruct l as [|a r]; [reflexivity|]. cbn [shorter length]. rewrite IH. reflexivity.
+Qed.
+
 Definition seg_end (s : segment) (start : vec4) : vec4 :=
   mkvec4 (last_or (sg_x s) (vx start)) (last_or (sg_y s) (vy start))
          (last_or (sg_z s) (vz start)) (last_or (sg_yaw s) (vyaw start)).
@@ -83,7 +98,7 @@ Definition decode_segment (scale : Z) (start : vec4) (rest : list Z) : res (opti
     let nz := num_coords (Z.shiftr header 4) in
     let nw := num_coords (Z.shiftr header 6) in
     let need := (2 + 2 * ((nx - 1) + (ny - 1) + (nz - 1) + (nw - 1)))%nat in
-    if (length r0 <? need)%nat then Err SB_EPARSE else
+    if shorter r0 need then Err SB_EPARSE else
     match r0 with
     | d0 :: d1 :: r1 =>
       match take_i16 (nx - 1) r1 with
@@ -127,7 +142,7 @@ Definition u32 (v : Z) : Z := v mod 4294967296.
 
 (** the cursor after the current segment (sb_trajectory_player_build_next_segment) *)
 Definition next_cursor (c : cursor) (s : segment) (rest' : list Z) : cursor :=
-  mkcur rest' (c_off c + sg_len s) (u32 (c_start_ms c + sg_dur s)) (seg_end s (c_start c)).
+  mkcur rest' (sg_len s + c_off c) (u32 (c_start_ms c + sg_dur s)) (seg_end s (c_start c)).
 
 (** ---- query time ---- *)
 Inductive qtime := QNegInf | QPosInf | QFin (q : Q).
